@@ -7,16 +7,17 @@ CONSTANT Part      \* "layout1" (all single-gap variations) | "layoutN" (full pr
                    \* | "rename" | "equ"
 
 Canon == [ind |-> "\t", sep |-> "\t", comma |-> ", ", brk |-> "", opsp |-> "", trail |-> "", cmt |-> "", cmtsp |-> " ", own |-> 0,
-          blank |-> 0, eol |-> "\n", final |-> 1]
+          blank |-> 0, eol |-> "\n", final |-> 1, kwsp |-> " "]
 Dom == [ind |-> {"\t", "", "  ", " \t "}, sep |-> {"\t", " ", "   ", " \t"}, comma |-> {", ", ",", " ,", " , ", ",\t"},
         brk |-> {"", " "}, opsp |-> {"", " "}, trail |-> {"", " ", "\t "},
         cmt |-> {"", "; c", "# c", ";a,b;c#d[e]'f", "#;", "#copy", ";x"}, cmtsp |-> {" ", "", "\t"}, own |-> {0, 1}, blank |-> {0, 1, 2},
-        eol |-> {"\n", "\r\n", "\r"}, final |-> {0, 1}]
+        eol |-> {"\n", "\r\n", "\r"}, final |-> {0, 1},
+        kwsp |-> {" ", "", "\t", "  "}]       \* between a size keyword (BYTE/WORD/DWORD) and the bracket or far pointer after it
 Fields == DOMAIN Canon
 
 Layout1 == UNION {{[Canon EXCEPT ![f] = v] : v \in Dom[f]} : f \in Fields}
 LayoutN == [ind : Dom.ind, sep : Dom.sep, comma : Dom.comma, brk : Dom.brk, opsp : Dom.opsp, trail : Dom.trail,
-            cmt : Dom.cmt, cmtsp : Dom.cmtsp, own : Dom.own, blank : Dom.blank, eol : Dom.eol, final : Dom.final]
+            cmt : Dom.cmt, cmtsp : Dom.cmtsp, own : Dom.own, blank : Dom.blank, eol : Dom.eol, final : Dom.final, kwsp : {" "}]
 \* a comment directly adjacent to the last token (no blank in between) is a permitted gap of width zero
 Layout2 == {[Canon EXCEPT !.cmt = c, !.cmtsp = g, !.eol = e] : c \in Dom.cmt \ {""}, g \in Dom.cmtsp, e \in Dom.eol}
 
@@ -30,7 +31,9 @@ Families == {
   <<"ax_", "mov_", "eax1", "db_", "equ_", "byte_", "global_", "org_", "dword_", "bits_">>,
   <<"_0", "_1", "_", "__", "_9", "z9", "z", "Z", "z_", "Z9">>,
   <<"CYLS0", "CYLS_", "BASE1", "BASE_", "fin_", "fin2", "L", "L0_", "L1L2", "xL0">>,
-  <<"end", "range", "len", "if", "else", "nil", "not", "and", "or", "index">> }
+  <<"end", "range", "len", "if", "else", "nil", "not", "and", "or", "index">>,
+  \* fragments of size keywords, mnemonics and register names (none is itself reserved or has a reserved prefix)
+  <<"D", "E", "R", "B", "W", "YT", "WOR", "RD", "OV", "QU">> }
 Renamings == {[fam |-> f, rot |-> r] : f \in Families, r \in 0..9}
 
 \* EQU abstraction: which literal sites (by index) are abstracted, chain depth, body style
